@@ -1,7 +1,121 @@
-/- stub: overwritten by the builder of this engine -/
-import Driver.Common
-open Lean FV FV.Drv
+/-
+Driver for E3 (Earley model).
 
-def handle (_ : Json) : Except String Json := throw "driver not implemented"
+  {"op":"compile","grammar":G,"cap":n}
+      → {"rules":[[lhs,[[sym…]…]]…],"epscycle":bool}
+  {"op":"parse","grammar":G,"cap":n,"start":s,"policy":"core"|"impl"|"acyclic","fuel":n,
+   "input":{"bytes":bool,"cells":[n…],"rlen":[[regexId,cell,len]…]},
+   "pred":[[column,ntName,[[sym…]…]]…]}
+      → {"status":"done"|"raised"|"fuel","steps":n,"cols":[[[lhs,[sym…],dot,origin,nkids]…]…],
+         "forest":[tree…],"epscycle":bool,"bound":n}
+
+sym := ["lit",leaf] | ["re",id] | ["nt",name,sender|null,recipient|null]
+-/
+import Driver.IRJson
+import Model.Earley
+open Lean FV FV.Drv FV.Earley
+
+def jSym : ESym → Json
+  | .t (.lit l) => Json.arr #["lit", jLeaf l]
+  | .t (.regex i) => Json.arr #["re", Json.num (JsonNumber.fromNat i)]
+  | .n x a r => Json.arr #["nt", Json.str (ntName x), jOptStr a, jOptStr r]
+
+def jRhs (rhs : List ESym) : Json := Json.arr (rhs.map jSym).toArray
+
+def nameTable (G : Grammar) (cap : Nat) : List (String × NT) :=
+  ("<*start*>", NT.start) :: (allNTs G cap).map (fun x => (ntName x, x))
+
+def ntOfName (tbl : List (String × NT)) (s : String) : Except String NT :=
+  match tbl.find? (fun p => p.1 == s) with
+  | some p => pure p.2
+  | none => pure (.user s)      -- a nonterminal the grammar never defines
+
+def symOfJson (tbl : List (String × NT)) (j : Json) : Except String ESym := do
+  let a ← j.getArr?
+  let tag ← (a[0]?.getD Json.null).getStr?
+  match tag with
+  | "lit" => return .t (.lit (← leafOfJson (a[1]?.getD Json.null)))
+  | "re" => return .t (.regex (← (a[1]?.getD Json.null).getNat?))
+  | "nt" =>
+    let x ← ntOfName tbl (← (a[1]?.getD Json.null).getStr?)
+    return .n x (optStr (a[2]?.getD Json.null)) (optStr (a[3]?.getD Json.null))
+  | _ => throw s!"bad symbol tag {tag}"
+
+def policyOf (s : String) : Except String Policy :=
+  match s with
+  | "core" => pure .core
+  | "impl" => pure .impl
+  | "acyclic" => pure .acyclic
+  | _ => throw s!"bad policy {s}"
+
+def inputOf (j : Json) : Except String Input := do
+  let isB ← (← j.getObjVal? "bytes").getBool?
+  let cells ← natArr (← j.getObjVal? "cells")
+  let rl ← (← j.getObjVal? "rlen").getArr?
+  let tbl ← rl.toList.mapM (fun e => do
+    let a ← natArr e
+    match a with
+    | [i, w, l] => pure (i, w, l)
+    | _ => throw "bad rlen entry")
+  return { isBytes := isB, cells := cells,
+           rlen := fun i w => (tbl.find? (fun e => e.1 == i && e.2.1 == w)).map (·.2.2) }
+
+def jItem (s : St) : Json :=
+  Json.arr #[Json.str (ntName s.item.lhs), jRhs s.item.rhs, Json.num (JsonNumber.fromNat s.item.dot),
+             Json.num (JsonNumber.fromNat s.item.origin), Json.num (JsonNumber.fromNat s.kids.length)]
+
+/-- the model's `run`, counting steps -/
+def runCount (c : Cfg) : Nat → M → Nat → Res × Nat
+  | 0, m, n => (.next m, n)
+  | fuel + 1, m, n =>
+    match step c m with
+    | .next m' => runCount c fuel m' (n + 1)
+    | r => (r, n + 1)
+
+/-- the size of the core item space, summed over the columns, times the frame factor: the step bound
+    of `Props/C06.lean` (kept in sync with `FV.Earley.stepBound`) -/
+def handle (j : Json) : Except String Json := do
+  let op ← j.getObjValAs? String "op"
+  let G ← grammarOf (← j.getObjVal? "grammar")
+  let cap ← (← j.getObjVal? "cap").getNat?
+  match op with
+  | "compile" =>
+    let rs := (allNTs G cap).map (fun x =>
+      Json.arr #[Json.str (ntName x), Json.arr ((rulesOf G cap x).map jRhs).toArray])
+    return Json.mkObj [("rules", Json.arr rs.toArray), ("epscycle", Json.bool (hasEpsCycle (compile G cap)))]
+  | "parse" =>
+    let start ← j.getObjValAs? String "start"
+    let pol ← policyOf (← j.getObjValAs? String "policy")
+    let fuel ← (← j.getObjVal? "fuel").getNat?
+    let inp ← inputOf (← j.getObjVal? "input")
+    let tbl := nameTable G cap
+    let predJ ← (← j.getObjVal? "pred").getArr?
+    let predTbl ← predJ.toList.mapM (fun e => do
+      let a ← e.getArr?
+      let k ← (a[0]?.getD Json.null).getNat?
+      let x ← ntOfName tbl (← (a[1]?.getD Json.null).getStr?)
+      let alts ← (← (a[2]?.getD Json.null).getArr?).toList.mapM (fun r => do
+        (← r.getArr?).toList.mapM (symOfJson tbl))
+      for rhs in alts do
+        if !(rulesOf G cap x).contains rhs then
+          throw s!"pred: {ntName x} has no alternative {(jRhs rhs).compress} in the model"
+      pure (k, x, alts))
+    let pred : Nat → NT → List (List ESym) := fun k x =>
+      match predTbl.find? (fun e => e.1 == k && decide (e.2.1 = x)) with
+      | some e => e.2.2
+      | none => rulesOf G cap x
+    let c := mkCfg G cap inp start pol pred
+    let (res, steps) := runCount c fuel (M.init c) 0
+    let (status, m) := match res with
+      | .done m => ("done", m)
+      | .raised m => ("raised", m)
+      | .next m => ("fuel", m)
+    let cols := m.cols.map (fun col => Json.arr (col.states.map jItem).toArray)
+    let forest := (m.out.flatMap collapse).map jTree
+    return Json.mkObj [("status", Json.str status), ("steps", Json.num (JsonNumber.fromNat steps)),
+      ("cols", Json.arr cols.toArray), ("forest", Json.arr forest.toArray),
+      ("epscycle", Json.bool (hasEpsCycle c.rules)),
+      ("nrules", Json.num (JsonNumber.fromNat c.rules.length))]
+  | _ => throw s!"unknown op {op}"
 
 def main : IO Unit := run handle
